@@ -228,6 +228,30 @@ def mutations():
         m('sigops-ms-%d' % n, lambda c, n=n: c['txs'][-1]['vout'].append(
             (0, b'\x52\xae' * ((n - _sig_total(c)) // 20) + b'\xac' * ((n - _sig_total(c)) % 20) + b'\x05ab')))
         m('sigops-split-%d' % n, lambda c, n=n: (c['txs'][0]['vout'].insert(0, (0, b'\xaf' * 500)), c['txs'][-1]['vout'].append((0, b'\xac' * (n - _sig_total(c))))))
+    # the same totals reached with many SHORT scripts shaped like (or almost like) the standard templates, where a counter that
+    # recognises templates by length and first bytes goes wrong: P2PKH with another operation where EQUALVERIFY belongs, sigop
+    # bytes inside the pushes of P2SH / witness-shaped scripts (not operations), bare keys, bare multisig, after OP_RETURN
+    h20 = bytes(range(1, 21))
+    TEMPL = [b'\x76\xa9\x14' + h20 + x + b'\xac' for x in (b'\x88', b'\xac', b'\xad', b'\xae', b'\xaf')] + \
+            [b'\xa9\x14' + b'\xac' * 20 + b'\x87', b'\x00\x14' + b'\xae' * 20, b'\x00\x20' + b'\xac' * 32, b'\x21' + b'\x02' + b'\xac' * 32 + b'\xac',
+             b'\x52\x21' + b'\x02' * 33 + b'\x21' + b'\x03' * 33 + b'\x52\xae', b'\x6a\xac', b'\x6a\x02\xac\xac', b'\x51\x20' + b'\xae' * 32,
+             b'\x76\xa9\x14' + h20 + b'\x88\xad\x51', b'\x76\xa9\x15' + h20 + b'\xac\x88\xac', b'\xa9\x14' + h20 + b'\xac']
+
+    TCOUNT = [S.sigops(sc, False) for sc in TEMPL]
+    MS = TEMPL[9]
+
+    def fill_templates(c, n):
+        k = 0
+        tot = _sig_total(c)
+        while tot < n - 60 and k < 3000:
+            # (two thirds of the way up by bare multisig - 20 each - so that the block stays small)
+            j = k % len(TEMPL) if tot > n * 2 // 3 or k % 2 else 9
+            c['txs'][-1 if k % 3 else 0]['vout'].append((k, TEMPL[j]))
+            tot += TCOUNT[j]
+            k += 1
+        c['txs'][-1]['vout'].append((0, b'\x76\xa9\x14' + h20 + b'\x88' + b'\xac' * (n - tot)))
+    for n in (20000, 20001):
+        m('sigops-templates-%d' % n, lambda c, n=n: fill_templates(c, n))
     m('sigops-after-truncated-push', lambda c: c['txs'][-1]['vout'].append((0, b'\x05ab' + b'\xac' * 30000)))
     m('trunc-push-spk', lambda c: c['txs'][-1]['vout'].append((0, b'\xac\x05ab')))
     m('trunc-push-pushdata1', lambda c: c['txs'][-1]['vout'].append((0, b'\x4c')))
@@ -556,7 +580,7 @@ def t_blocks(ctx):
         for chain in ('mainnet', 'testnet', 'signet'):
             for name in ('none', 'cb-script-101', 'second-cb', 'wrong-root', 'commit-wrong', 'time-late', 'sigops-20001', 'tx-val-max+1'):
                 ctx.run({'kind': 'block', 'base': base, 'mutation': name, 'chain': chain})
-        for k, name in enumerate(('none', 'none', 'none', 'dup-tx', 'second-cb', 'cb-script-101', 'sigops-20001', 'commit-wrong', 'tx-val-neg', 'time-late',
+        for k, name in enumerate(('none', 'none', 'none', 'dup-tx', 'second-cb', 'cb-script-101', 'sigops-20001', 'sigops-templates-20001', 'sigops-templates-20000', 'commit-wrong', 'tx-val-neg', 'time-late',
                                   'cb-wit-31', 'tx-dup-input', 'no-cb')):
             ctx.run({'kind': 'constructed', 'base': base, 'mutation': name, 'mutable_mask': (0xff, 0x02, 0x55, 0xfe, 0x01, 0xaa)[(k + len(base['txs'])) % 6],
                      'declare_root': k % 3 == 1})
